@@ -288,6 +288,9 @@ type ICase struct {
 	// 3 body bytes first: each reports what passed through it (outer: 200 and 3+n bytes; inner: the
 	// handler's own WriteHeader code and n bytes)
 	NestedAccess bool `json:"nested_access_handler,omitempty"`
+	// NestedSame: NewHandler(base) a second time further in (a sub-router mounting the same
+	// middleware stack), followed by a field handler: what that adds belongs to the inner logger only
+	NestedSame bool `json:"nested_same_handler,omitempty"`
 }
 
 type syncBuf struct {
@@ -370,6 +373,9 @@ func runIsolation(c *ICase) (string, bool) {
 	if c.MutedInner {
 		h = hlog.MethodHandler("innermethod")(h)
 		h = hlog.NewHandler(zerolog.New(out).Level(zerolog.Disabled))(h)
+	} else if c.NestedSame {
+		h = hlog.MethodHandler("innermethod")(h)
+		h = hlog.NewHandler(base)(h)
 	}
 	for i := len(c.Handlers) - 1; i >= 0; i-- {
 		h = handlerTable[c.Handlers[i]]()(h)
@@ -470,6 +476,23 @@ func runIsolation(c *ICase) (string, bool) {
 		want := map[string]string{"url": rq.URL, "method": rq.Method, "request": rq.Method + " " + rq.URL, "remote": rq.Remote, "ip": hostOnly(rq.Remote), "ua": rq.UA,
 			"referer": rq.Referer, "proto": rq.Proto, "httpver": strings.TrimPrefix(rq.Proto, "HTTP/"), "custom": rq.Custom, "host": rq.Host, "hostnp": hostOnly(rq.Host)}
 		isAccess := f["message"] == "access" || f["message"] == "access-inner"
+		innerEvent := c.NestedSame && !c.MutedInner && !isAccess
+		if innerEvent {
+			// logged through the logger of the inner NewHandler(base): the base fields, what was added
+			// inside it (innermethod), and nothing the outer handlers added to *their* logger
+			for k := range f {
+				switch {
+				case k == "level" || k == "message" || k == "me" || k == "i" || k == "idseen" || strings.HasPrefix(k, "base"):
+				case k == "innermethod" && f[k] == rq.Method:
+				default:
+					return fmt.Sprintf("request %s: an event of the inner handler stack carries %s=%q: %q", rq.ID, k, f[k], line), overlapped >= 2
+				}
+			}
+			if f["innermethod"] == "" {
+				return fmt.Sprintf("request %s: inner event lacks innermethod: %q", rq.ID, line), overlapped >= 2
+			}
+			continue
+		}
 		for _, hn := range c.Handlers {
 			switch hn {
 			case "reqid":
@@ -508,6 +531,14 @@ func runIsolation(c *ICase) (string, bool) {
 		for k := range f {
 			switch k {
 			case "level", "message", "me", "i", "status", "size", "idseen":
+				continue
+			}
+			if k == "innermethod" && c.NestedSame && !c.MutedInner && !isAccess {
+				// the inner NewHandler(base) starts from the base logger again: the final handler's events
+				// carry what was added inside it, and nothing of the outer handlers
+				if f[k] != rq.Method {
+					return fmt.Sprintf("request %s: innermethod=%q, want %q", rq.ID, f[k], rq.Method), overlapped >= 2
+				}
 				continue
 			}
 			if strings.HasPrefix(k, "base") {
@@ -560,7 +591,7 @@ func runIsolation(c *ICase) (string, bool) {
 func genICase(rt *rapid.T, maxReqs int) *ICase {
 	names := []string{"url", "method", "request", "remote", "ip", "ua", "referer", "proto", "httpver", "custom", "host", "hostnp", "reqid", "etag", "resphdr"}
 	c := &ICase{BaseCtx: rapid.IntRange(0, 3).Draw(rt, "basectx"), Events: rapid.IntRange(1, 3).Draw(rt, "events"),
-		SharedCtx: rapid.IntRange(0, 2).Draw(rt, "sharedctx") == 0, MutedInner: rapid.IntRange(0, 3).Draw(rt, "muted") == 0, NestedAccess: rapid.IntRange(0, 2).Draw(rt, "nestedaccess") == 0}
+		SharedCtx: rapid.IntRange(0, 2).Draw(rt, "sharedctx") == 0, MutedInner: rapid.IntRange(0, 3).Draw(rt, "muted") == 0, NestedSame: rapid.IntRange(0, 3).Draw(rt, "nestedsame") == 0, NestedAccess: rapid.IntRange(0, 2).Draw(rt, "nestedaccess") == 0}
 	perm := rapid.Permutation(names).Draw(rt, "perm")
 	c.Handlers = perm[:rapid.IntRange(1, len(perm)).Draw(rt, "nh")]
 	n := rapid.IntRange(2, maxReqs).Draw(rt, "nreq")
@@ -570,7 +601,7 @@ func genICase(rt *rapid.T, maxReqs int) *ICase {
 		remotes := []string{fmt.Sprintf("10.0.%d.%d:%d", i/250, i%250+1, 1000+i), fmt.Sprintf("[2001:db8::%x]:%d", i+1, 2000+i), fmt.Sprintf("2001:db8::%x", i+1),
 			fmt.Sprintf("fe80::%x%%eth0", i+1), fmt.Sprintf("192.168.%d.%d", i/250, i%250+1), fmt.Sprintf("[::%x]", i+1), fmt.Sprintf("peer%d", i)}
 		hosts := []string{fmt.Sprintf("h%d.example.com:%d", i, 8000+i), fmt.Sprintf("h%d.example.com", i), fmt.Sprintf("[2001:db8:1::%x]:%d", i+1, 8000+i), fmt.Sprintf("2001:db8:1::%x", i+1), fmt.Sprintf("こんにちは%d.com:%d", i, 80+i)}
-		c.Reqs = append(c.Reqs, Req{ID: id, Method: []string{"GET", "POST", "PUT", "DELETE", "PATCH"}[i%5], URL: fmt.Sprintf("/p/%s?q=%d", id, i),
+		c.Reqs = append(c.Reqs, Req{ID: id, Method: []string{"GET", "POST", "PUT", "DELETE", "PATCH", "HEAD", "OPTIONS"}[i%7], URL: fmt.Sprintf("/p/%s?q=%d", id, i),
 			Remote: remotes[rapid.IntRange(0, len(remotes)-1).Draw(rt, "remoteform")], Host: hosts[rapid.IntRange(0, len(hosts)-1).Draw(rt, "hostform")],
 			UA: "agent-" + id, Referer: "http://ref/" + id, Custom: "custom-" + id, Proto: []string{"HTTP/1.0", "HTTP/1.1", "HTTP/2.0"}[i%3],
 			Preset: rapid.IntRange(0, 3).Draw(rt, "preset") == 0})
